@@ -71,6 +71,13 @@ type FailFile struct {
 	// interleaving was decided by the real scheduler: a replay follows the
 	// recorded choices leniently and may need several attempts.
 	TimingDependent bool `json:"timing_dependent,omitempty"`
+	// BatchSeed/BatchRun: the worker seed and the number of the run (1-based)
+	// in which the batch first failed. If the code under test carries state from
+	// run to run (a package-level cache, say), the failure may only reproduce
+	// by re-executing the batch up to that run: replay_mode "batch-prefix".
+	BatchSeed  uint64 `json:"batch_seed,omitempty"`
+	BatchRun   int    `json:"batch_first_failing_run,omitempty"`
+	ReplayMode string `json:"replay_mode,omitempty"`
 }
 
 type statsFile struct {
@@ -181,6 +188,7 @@ func batch(p *props.Property, runs int, seed uint64, out string) int {
 	idx, _ := os.OpenFile(filepath.Join(out, "runindex"), os.O_CREATE|os.O_WRONLY, 0o644)
 	runNo := 0
 	var captureFile *os.File
+	firstFailRun := 0
 	if seed == 0 {
 		seed = 0x9e3779b97f4a7c15 // rapid treats 0 as "pick a random seed"
 	}
@@ -299,7 +307,9 @@ func batch(p *props.Property, runs int, seed uint64, out string) int {
 			}
 			if firstFail == nil {
 				firstFail = ff
+				firstFailRun = runNo
 			}
+			ff.BatchSeed, ff.BatchRun = seed, firstFailRun
 			lastFail = ff
 			rt.Fatalf("%s", o.Violation.Class)
 		})
